@@ -6,6 +6,8 @@ use std::panic::{catch_unwind, AssertUnwindSafe};
 pub struct Ctx {
     pub seed: u64,
     pub tier_thorough: bool,
+    /// flush after every line (PG_FLUSH=1; for locating a hang)
+    pub flush_each: bool,
     pub out: std::io::BufWriter<std::io::Stdout>,
 }
 
@@ -13,6 +15,9 @@ impl Ctx {
     /// one protocol line: `<request> => <implementation answer>`
     pub fn line(&mut self, req: &str, ans: &str) {
         writeln!(self.out, "{} => {}", req, ans).unwrap();
+        if self.flush_each {
+            self.out.flush().unwrap();
+        }
     }
     pub fn raw(&mut self, s: &str) {
         writeln!(self.out, "{}", s).unwrap();
